@@ -127,9 +127,15 @@ def run_scenarios(scens):
     base = tempfile.mkdtemp(prefix='c15_')
     out = []
     try:
+        hangs = 0
         for i, s in enumerate(scens):
+            if hangs >= 12:             # hang budget: the violation is established, do not turn it into a stuck check
+                out.append(None)
+                continue
             root = os.path.join(base, 'r%d' % i)
             out.append(run_scenario(s, root))
+            if out[-1] is not None and out[-1]['oc'] == 'hang':
+                hangs += 1
             if s['cl'] == 'H' and i % 200 == 199:
                 shutil.rmtree(base, ignore_errors=True)
                 os.makedirs(base, exist_ok=True)
